@@ -6,17 +6,20 @@
   tail word `(block, index, closing bit)`, the consumer-owned `head.block` / `head.index`, `old_block`.
   One `tstepC` case per hooked operation in program order with the branch the code takes:
 
-    push      pLoad → pCas (retry loop) → pSet [slot B-1: → pAlloc → pWait (spin) → pLink → pTail]
-    pop       oBlk → oIdx → oTry → [oTail → (None | oSpin (spin))] → oStore [slot B-1: retire]
+    push      pLoad → pCas (retry loop) → pWrite → pSet [slot B-1: → pAlloc → pWait (spin) → pLink → pTail]
+    pop       oBlk → oIdx → oTry → [oTail → (None | oSpin (spin))] → oRead → oStore [slot B-1: retire]
     retire    [rFree (previous old_block)] → rNext (spin) → rHead        (shared by pop / bulk_pop)
-    bulk_pop  bIdx → bBlk → bFast* → (bStore | bTail → (empty | bCopy* (spin) → bStore)) [block end: retire]
-    peek      kIdx → kTail → (None | kBlk → kSpin (spin))
+    bulk_pop  bIdx → bBlk → (bFast → bFastRd)* → (bStore | bTail → (empty | (bCopy (spin) → bCopyRd)* → bStore))
+              [block end: retire]
+    peek      kIdx → kTail → (None | kBlk → kSpin (spin) → kRead)
     len       lIdx → lTail          (is_empty = len() == 0)
     Drop      pop loop (d = true) → dHead → dTail → dNext → dFree1 → dFree2 → [dFree3]
     new       nAlloc0 → nAlloc1 → nLink → nRet
 
-  Non-atomic accesses that the code keeps race free (slot payload, `block.start`, `old_block`) are folded into
-  the adjacent hooked operation. Every dereference of a block goes through `touch`, which raises the ghost flag
+  The non-atomic slot accesses are steps of their own (`pWrite`; `oRead`, `bFastRd`, `bCopyRd`, `kRead`): the hook
+  sits directly in front of the access inside `BlockNode::set / try_get / get / peek`, so the event moves with the
+  access. Other non-atomic accesses that the code keeps race free (`block.start`, `old_block`) are folded into the
+  adjacent hooked operation. Every dereference of a block goes through `touch`, which raises the ghost flag
   `uaf` when the block is not live; `dfree` = double free; `panic` = an assertion of `Drop` fails.
 
   Tie to level A (`MpscA.lean`, where the FIFO refinement is proved): the state carries the level-A state `a` as a
@@ -54,7 +57,8 @@ inductive Pc
   -- push(v)
   | pLoad (v : Nat)
   | pCas (v : Nat) (w : Word)
-  | pSet (v : Nat) (b : Bid) (i : Nat)
+  | pWrite (v : Nat) (b : Bid) (i : Nat)       -- the slot write of `BlockNode::set`
+  | pSet (v : Nat) (b : Bid) (i : Nat)         -- `ready.store(1)`
   | pAlloc (b : Bid)
   | pWait (b nn : Bid)
   | pLink (nx nn : Bid)
@@ -65,6 +69,7 @@ inductive Pc
   | oTry (d : Bool) (hb : Bid) (pi : Nat)
   | oTail (d : Bool) (hb : Bid) (pi : Nat)
   | oSpin (d : Bool) (hb : Bid) (pi : Nat)
+  | oRead (d : Bool) (sp : Bool) (hb : Bid) (pi : Nat)     -- the slot read of `try_get` (sp = false) / `get` (sp = true)
   | oStore (d : Bool) (hb : Bid) (pi : Nat) (v : Nat)
   -- hand-over of the head block
   | rFree (hb : Bid) (k : K)
@@ -74,14 +79,17 @@ inductive Pc
   | bIdx
   | bBlk (pi : Nat)
   | bFast (hb : Bid) (ci : Nat) (acc : List Nat)
+  | bFastRd (hb : Bid) (ci : Nat) (acc : List Nat)          -- the slot read after a successful `ready` read
   | bStore (hb : Bid) (ni : Nat) (acc : List Nat)
   | bTail (hb : Bid) (pi : Nat)
   | bCopy (hb : Bid) (ci e : Nat) (acc : List Nat)
+  | bCopyRd (hb : Bid) (ci e : Nat) (acc : List Nat)
   -- peek
   | kIdx
   | kTail (pi : Nat)
   | kBlk (pi : Nat)
   | kSpin (hb : Bid) (pi : Nat)
+  | kRead (hb : Bid) (pi : Nat)
   -- len / is_empty
   | lIdx (e : Bool)
   | lTail (e : Bool) (pi : Nat)
@@ -174,14 +182,14 @@ def tstepC (s : Sh) (t : Tid) : Pc → Env → Option (Sh × Pc × AAct)
   -- push
   | .pLoad v, _ => some (s, .pCas v { s.tail with closing := false }, some .go)
   | .pCas v w, e =>
-      if s.tail = w then some ({ s with tail := nextWord s.B w }, .pSet v w.blk w.idx, some .go)
+      if s.tail = w then some ({ s with tail := nextWord s.B w }, .pWrite v w.blk w.idx, some .go)
       else if e = .aba ∧ s.live w.blk = false ∧ w.idx = s.tail.idx ∧ s.tail.closing = false ∧ s.start w.blk < s.start s.tail.blk then
-        some ({ s with tail := nextWord s.B s.tail }, .pSet v s.tail.blk s.tail.idx, some .aba)
+        some ({ s with tail := nextWord s.B s.tail }, .pWrite v s.tail.blk s.tail.idx, some .aba)
       else some (s, .pCas v { s.tail with closing := false }, some .go)
-  | .pSet v b i, _ =>
+  | .pWrite v b i, _ => let s := touch s b; some ({ s with val := upd2 s.val b i v }, .pSet v b i, none)
+  | .pSet _ b i, _ =>
       let s := touch s b
-      some ({ s with ready := upd2 s.ready b i true, val := upd2 s.val b i v },
-            if i + 1 = s.B then .pAlloc b else .ret .unit, some .go)
+      some ({ s with ready := upd2 s.ready b i true }, if i + 1 = s.B then .pAlloc b else .ret .unit, some .go)
   | .pAlloc b, _ => let s := touch s b; some (alloc s (s.start b + 2 * s.B), .pWait b s.nb, none)
   | .pWait b nn, _ =>
       let s := touch s b
@@ -195,7 +203,7 @@ def tstepC (s : Sh) (t : Tid) : Pc → Env → Option (Sh × Pc × AAct)
   | .oIdx d hb, _ => some (s, .oTry d hb s.headIdx, none)
   | .oTry d hb pi, _ =>
       let s := touch s hb
-      if s.ready hb (pi % s.B) then some (s, .oStore d hb pi (s.val hb (pi % s.B)), some .go)
+      if s.ready hb (pi % s.B) then some (s, .oRead d false hb pi, none)
       else some (s, .oTail d hb pi, some .go)
   | .oTail d hb pi, _ =>
       let s := touch s s.tail.blk
@@ -203,8 +211,9 @@ def tstepC (s : Sh) (t : Tid) : Pc → Env → Option (Sh × Pc × AAct)
       else some (s, .oSpin d hb pi, some .go)
   | .oSpin d hb pi, _ =>
       let s := touch s hb
-      if s.ready hb (pi % s.B) then some (s, .oStore d hb pi (s.val hb (pi % s.B)), some .go)
+      if s.ready hb (pi % s.B) then some (s, .oRead d true hb pi, none)
       else some (s, .oSpin d hb pi, none)
+  | .oRead d _ hb pi, _ => let s := touch s hb; some (s, .oStore d hb pi (s.val hb (pi % s.B)), some .go)
   | .oStore d hb pi v, _ =>
       let s := { s with headIdx := pi + 1 }
       if (pi + 1) % s.B = 0 then let (s, pc) := retire s hb (.pop d v); some (s, pc, none)
@@ -225,10 +234,12 @@ def tstepC (s : Sh) (t : Tid) : Pc → Env → Option (Sh × Pc × AAct)
   | .bBlk pi, _ => some (s, .bFast s.headBlk pi [], none)
   | .bFast hb ci acc, _ =>
       let s := touch s hb
-      if s.ready hb (ci % s.B) then
-        let acc' := acc ++ [s.val hb (ci % s.B)]
-        some (s, if (ci + 1) % s.B = 0 then .bStore hb (ci + 1) acc' else .bFast hb (ci + 1) acc', some .go)
+      if s.ready hb (ci % s.B) then some (s, .bFastRd hb ci acc, none)
       else if acc.isEmpty then some (s, .bTail hb ci, some .go) else some (s, .bStore hb ci acc, some .go)
+  | .bFastRd hb ci acc, _ =>
+      let s := touch s hb
+      let acc' := acc ++ [s.val hb (ci % s.B)]
+      some (s, if (ci + 1) % s.B = 0 then .bStore hb (ci + 1) acc' else .bFast hb (ci + 1) acc', some .go)
   | .bStore hb ni acc, _ =>
       let s := { s with headIdx := ni }
       if ni % s.B = 0 then let (s, pc) := retire s hb (.bulk acc); some (s, pc, none)
@@ -239,10 +250,12 @@ def tstepC (s : Sh) (t : Tid) : Pc → Env → Option (Sh × Pc × AAct)
       else some (s, .bCopy hb pi (min (pidx s s.tail) ((pi / s.B + 1) * s.B)) [], some .go)
   | .bCopy hb ci e acc, _ =>
       let s := touch s hb
-      if s.ready hb (ci % s.B) then
-        let acc' := acc ++ [s.val hb (ci % s.B)]
-        some (s, if ci + 1 ≥ e then .bStore hb e acc' else .bCopy hb (ci + 1) e acc', some .go)
+      if s.ready hb (ci % s.B) then some (s, .bCopyRd hb ci e acc, none)
       else some (s, .bCopy hb ci e acc, none)
+  | .bCopyRd hb ci e acc, _ =>
+      let s := touch s hb
+      let acc' := acc ++ [s.val hb (ci % s.B)]
+      some (s, if ci + 1 ≥ e then .bStore hb e acc' else .bCopy hb (ci + 1) e acc', some .go)
   -- peek
   | .kIdx, _ => some (s, .kTail s.headIdx, none)
   | .kTail pi, _ =>
@@ -251,8 +264,9 @@ def tstepC (s : Sh) (t : Tid) : Pc → Env → Option (Sh × Pc × AAct)
   | .kBlk pi, _ => some (s, .kSpin s.headBlk pi, none)
   | .kSpin hb pi, _ =>
       let s := touch s hb
-      if s.ready hb (pi % s.B) then some (s, .ret (.peek (some (s.val hb (pi % s.B)))), some .go)
+      if s.ready hb (pi % s.B) then some (s, .kRead hb pi, none)
       else some (s, .kSpin hb pi, none)
+  | .kRead hb pi, _ => let s := touch s hb; some (s, .ret (.peek (some (s.val hb (pi % s.B)))), some .go)
   -- len / is_empty
   | .lIdx e, _ => some (s, .lTail e s.headIdx, none)
   | .lTail e pi, _ =>
@@ -281,11 +295,12 @@ def proj (s : Sh) : Pc → MpscA.Pc
   | .idle | .nAlloc0 | .nAlloc1 _ | .nLink .. | .nRet => .idle
   | .pLoad v => .load v
   | .pCas v w => .cas v (s.start w.blk + w.idx)
-  | .pSet v b i => .publish v (s.start b + i)
+  | .pWrite v b i | .pSet v b i => .publish v (s.start b + i)
   | .pAlloc _ | .pWait .. | .pLink .. | .pTail _ => .close
   | .oBlk d | .oIdx d _ | .oTry d .. => .tryGet d
   | .oTail d .. => .pushIndex d
   | .oSpin d .. => .spin d
+  | .oRead d sp .. => if sp then .spin d else .tryGet d
   | .oStore d _ _ v => if d then .tryGet true else .ret (.pop (some v))
   | .rFree _ k | .rNext _ k | .rHead _ k =>
       match k with
@@ -293,12 +308,12 @@ def proj (s : Sh) : Pc → MpscA.Pc
       | .pop false v => .ret (.pop (some v))
       | .bulk acc => .ret (.bulk acc)
   | .bIdx | .bBlk _ => .bFast []
-  | .bFast _ _ acc => .bFast acc
+  | .bFast _ _ acc | .bFastRd _ _ acc => .bFast acc
   | .bStore _ _ acc => .ret (.bulk acc)
   | .bTail .. => .bPushIndex
-  | .bCopy _ _ e acc => .bCopy e acc
+  | .bCopy _ _ e acc | .bCopyRd _ _ e acc => .bCopy e acc
   | .kIdx | .kTail _ => .kPushIndex
-  | .kBlk _ | .kSpin .. => .kSpin
+  | .kBlk _ | .kSpin .. | .kRead .. => .kSpin
   | .lIdx e | .lTail e _ => .lPushIndex e
   | .dHead | .dTail _ | .dNext _ | .dFree1 .. | .dFree2 _ | .dFree3 _ => .ret .unit
   | .ret r => .ret r
